@@ -5,6 +5,7 @@ import (
 	"strconv"
 	"sync"
 	"time"
+	"unicode/utf8"
 
 	"github.com/prometheus/client_golang/prometheus"
 )
@@ -457,6 +458,11 @@ func (s *clusterState) ApplyDigest(digest digest) {
 		if entry.Left {
 			continue
 		}
+		// Node IDs are used as metrics label values, which must be valid
+		// UTF-8, so ignore nodes with an invalid ID.
+		if !utf8.ValidString(entry.ID) {
+			continue
+		}
 
 		s.nodes[entry.ID] = &nodeState{
 			NodeMetadata: NodeMetadata{
@@ -513,6 +519,12 @@ func (s *clusterState) applyDeltaEntry(entry deltaEntry) {
 
 	state, ok := s.nodes[entry.ID]
 	if !ok {
+		// Node IDs are used as metrics label values, which must be valid
+		// UTF-8, so discard updates for nodes with an invalid ID.
+		if !utf8.ValidString(entry.ID) {
+			return
+		}
+
 		s.nodes[entry.ID] = &nodeState{
 			NodeMetadata: NodeMetadata{
 				ID:   entry.ID,
